@@ -765,6 +765,13 @@ func (x *exec) finish(hadClass string) (fails []failure) {
 
 // ---------------------------------------------------------------- driver
 
+// representatives of the refused / tolerated / allowed requests in the core alphabet
+var coreRefused = map[string]bool{
+	"Admin(create x)": true, "Admin(truncated message)": true, "Transaction(update)": true,
+	"GetOne(1,0,users)": true, "Abort(tnB)": true, "Action(tnB,delete data)": true, "Log(hello)": true,
+	"Run(1+1)": true, "Cursors": true, "LibGet(Foo)": true, "Size": true, "Close(qnB,q)": true,
+}
+
 // canonical minimal witnesses of the classified failure classes
 var witnesses = map[string][]string{
 	"unauth-token":       {"Token", "Auth(token-obtained-by-A)"},
@@ -849,6 +856,14 @@ func run(c *lib.Ctx) {
 		names = append(names, alpha[i].Name)
 	}
 	depth := lib.Pick(c, 2, 3)
+	var coreNames []string
+	for _, n := range names {
+		rq := byName[n]
+		if (rq.Kind != "refuse" && rq.Kind != "zero" && rq.Kind != "allow") || coreRefused[n] {
+			coreNames = append(coreNames, n)
+		}
+	}
+	c.Set("core_alphabet(levels before the last at depth 3)", coreNames)
 	c.Set("alphabet", names)
 	c.Set("alphabet_size", len(names))
 	c.Set("depth", depth)
@@ -915,12 +930,25 @@ func run(c *lib.Ctx) {
 		if len(prefix) == depth {
 			return
 		}
-		for _, n := range names {
+		// The last request of a sequence ranges over the whole alphabet. At
+		// depth 3 the requests before it range over the core alphabet: every
+		// request that can change the authorization state (Auth shapes, Nonce,
+		// Token, Kill, Connections, SessionId, EndSession, invalid command)
+		// plus one representative of each kind of refused request.
+		next := names
+		if depth > 2 && len(prefix)+1 < depth {
+			next = coreNames
+		}
+		for _, n := range next {
 			dfs(append(append([]string(nil), prefix...), n))
 		}
 	}
 	// shard on the first request
-	for i, n := range names {
+	first := names
+	if depth > 2 {
+		first = coreNames
+	}
+	for i, n := range first {
 		if i%c.NShards != c.Shard {
 			continue
 		}
